@@ -16,9 +16,11 @@ func init() {
 	register(&Rule{
 		ID: "ITER-1",
 		Doc: "no removal of the current element from the list being iterated: a loop that reads elements x[i] (i loop-varying) of a slice loaded from a struct field (Node.In, Node.Out, DGraph.Edges, ...) must not, inside the loop body, make a call whose effect summary contains RemoveElem(same field, that element); " +
-			"list effects are derived from (*EdgeList).Remove/Add recognised by shape and composed through call sites (so Edge.Reverse counts)",
-		Floor: 90,
-		Ctl:   []string{"internal__phase1__iter1.go.txt"},
+			"list effects are derived from (*EdgeList).Remove/Add recognised by shape and composed through call sites (so Edge.Reverse counts). " +
+			"Work-list clause: a loop whose body appends (directly or through callees, object-sensitively: same field of the same base object) to the list it iterates re-reads the list in every iteration; iterating a snapshot taken before the loop never visits the appended elements",
+		Floor:  90,
+		MinCtl: 2,
+		Ctl:    []string{"internal__phase1__iter1.go.txt"},
 		Run:   runIter1,
 	})
 	register(&Rule{
@@ -137,6 +139,154 @@ func runIter1(m *Model, r *RuleResult) {
 				r.add(Obligation{Key: lk, Pos: m.Pos(el.ia.Pos()), Desc: "loop over " + el.loc + " does not remove the element it is visiting", Verdict: "holds", Control: ctl})
 			}
 		}
+	}
+	// work-list clause: a loop whose body appends to the list it iterates must re-read the list in every iteration; a
+	// loop over a snapshot taken before the loop (range, or a slice variable loaded once) never visits the appended elements
+	// growsP[f][loc][i]: f (transitively) appends to the list `loc` of the object passed as parameter i
+	growsP := map[*ssa.Function]map[string]map[int]bool{}
+	paramIdx := func(f *ssa.Function, v ssa.Value) int {
+		for i, p := range f.Params {
+			if p == v {
+				return i
+			}
+		}
+		return -1
+	}
+	addG := func(f *ssa.Function, loc string, i int) bool {
+		if growsP[f][loc] == nil {
+			growsP[f][loc] = map[int]bool{}
+		}
+		if growsP[f][loc][i] {
+			return false
+		}
+		growsP[f][loc][i] = true
+		return true
+	}
+	for _, f := range m.Src {
+		growsP[f] = map[string]map[int]bool{}
+		for _, lo := range listOpsOf(m, f) {
+			if lo.op == "add" && lo.loc != "" {
+				if i := paramIdx(f, lo.base); i >= 0 {
+					addG(f, lo.loc, i)
+				}
+			}
+		}
+	}
+	for changed := true; changed; {
+		changed = false
+		for _, f := range m.Src {
+			eachInstr(f, func(in ssa.Instruction) {
+				ci, ok := in.(ssa.CallInstruction)
+				if !ok {
+					return
+				}
+				c := ci.Common().StaticCallee()
+				if c == nil || growsP[c] == nil {
+					return
+				}
+				for loc, ps := range growsP[c] {
+					for i := range ps {
+						if i < len(ci.Common().Args) {
+							if j := paramIdx(f, ci.Common().Args[i]); j >= 0 && addG(f, loc, j) {
+								changed = true
+							}
+						}
+					}
+				}
+			})
+		}
+	}
+	for _, f := range m.Src {
+		loops := naturalLoops(f)
+		if len(loops) == 0 {
+			continue
+		}
+		ctl := m.FuncIsPosctl(f)
+		seen := map[string]bool{}
+		ops := listOpsOf(m, f)
+		eachInstr(f, func(in ssa.Instruction) {
+			u, ok := in.(*ssa.UnOp)
+			if !ok || u.Op != token.MUL {
+				return
+			}
+			ia, ok := u.X.(*ssa.IndexAddr)
+			if !ok {
+				return
+			}
+			if _, isConst := ia.Index.(*ssa.Const); isConst {
+				return
+			}
+			ls := loopsContaining(loops, in.Block())
+			if len(ls) == 0 {
+				return
+			}
+			l := ls[0]
+			// the iterated list: load of a field of some base object
+			ld, ok := ia.X.(*ssa.UnOp)
+			if !ok || ld.Op != token.MUL {
+				return
+			}
+			fa, ok := ld.X.(*ssa.FieldAddr)
+			if !ok {
+				return
+			}
+			base, steps := fieldChain(fa)
+			loc := locOfSteps(steps)
+			// does the loop body grow this very list (same field of the same object)?
+			growsHere := ""
+			for b := range l.Body {
+				for _, bi := range b.Instrs {
+					ci, ok := bi.(ssa.CallInstruction)
+					if !ok {
+						continue
+					}
+					c := ci.Common().StaticCallee()
+					if c == nil || growsP[c] == nil {
+						continue
+					}
+					// growth repeated by an inner loop of its own (split until done) is not a work-list pattern
+					if inner := loopsContaining(loops, b); len(inner) == 0 || inner[0] != l {
+						continue
+					}
+					for i := range growsP[c][loc] {
+						if i < len(ci.Common().Args) && ci.Common().Args[i] == base {
+							growsHere = funcKey(c) + " at " + m.Pos(bi.Pos())
+						}
+					}
+				}
+			}
+			for _, lo := range ops {
+				if inner := loopsContaining(loops, lo.in.Block()); len(inner) == 0 || inner[0] != l {
+					continue
+				}
+				if lo.op == "add" && lo.loc == loc && lo.base == base && l.Body[lo.in.Block()] {
+					growsHere = "append at " + m.Pos(lo.in.Pos())
+				}
+			}
+			if growsHere == "" {
+				return
+			}
+			key := fmt.Sprintf("worklist:%s:over:%s", funcKey(f), loc)
+			if seen[key] {
+				return
+			}
+			seen[key] = true
+			if l.Body[ld.Block()] {
+				r.add(Obligation{Key: key, Pos: m.Pos(ia.Pos()), Desc: "the loop appends to " + loc + " (" + growsHere + ") and re-reads the list in every iteration, so the appended elements are visited too", Verdict: "holds", Control: ctl})
+			} else {
+				r.add(Obligation{Key: key, Pos: m.Pos(ia.Pos()), Desc: "a loop that appends to the list it iterates must re-read the list in every iteration", Verdict: "violation",
+					Detail: "the loop iterates a snapshot of " + loc + " taken before the loop while its body appends to that same list (" + growsHere + "): the appended elements are never visited", Control: ctl})
+			}
+		})
+	}
+	nWork := 0
+	for _, o := range r.Obligations {
+		if strings.HasPrefix(o.Key, "worklist:") && !o.Control {
+			nWork++
+		}
+	}
+	if nWork == 0 {
+		r.undecided("worklist-anchor", "-", "the loop that splits long edges appends to the edge list it iterates", "no loop appending to the list it iterates was found (anchor of the work-list clause)")
 	}
 	n := 0
 	for _, k := range m.fx.listPrim {
